@@ -1,9 +1,11 @@
 SPECIFICATION Spec
 CONSTANTS
-  MaxSet = 99
-  Bases <- BasesNone
+  MaxSet = 2
+  Bases <- BasesSend
   SendModes <- AllSendModes
   PlainApis <- AllPlainApis
-  Ordered = FALSE
+  Ordered = TRUE
+INVARIANTS TypeOK WireNoLeak WirePublic
+CONSTRAINT ClientOnly
 ACTION_CONSTRAINT EmitBehaviour
 CHECK_DEADLOCK FALSE
